@@ -5,3 +5,8 @@ From CM Require Export Base.Str.
 Inductive rs_variant :=
 | AsIsNoIor        (* __or__/list_dict_or index both operands; no __ior__ (dict.__ior__ = update) *)
 | TotalOrWithIor.  (* __or__/list_dict_or use .get(k, default); __ior__ defined through __or__ *)
+
+(** registry.load_registered_codemods: what the [for entry_point in ...] loop iterates over (shared by C11 and C17). *)
+Inductive iter_form :=
+| OverSet            (* set(entry_points().select(group="codemods")): order chosen by the hash seed *)
+| Deterministic.     (* dict.fromkeys(...) / the sequence itself: first occurrences, in sequence order *)
